@@ -1,0 +1,54 @@
+//go:build verif
+
+// Verification hooks (build tag verif): read-only access to unexported state of
+// package fs for the harness under /verif.  Not compiled into normal builds.
+
+package fs
+
+func VerifUnescape(s string) string {
+	return unescape(s)
+}
+
+type VerifDevice struct {
+	StDev string
+	Name  string
+	Roots []string
+}
+
+type VerifMountEntry struct {
+	MountType
+	StDev string
+	Root  string
+}
+
+func (m Mounts) VerifMountList() []VerifMountEntry {
+	out := make([]VerifMountEntry, len(m.mount_list))
+	for i, mnt := range m.mount_list {
+		out[i] = VerifMountEntry{mnt, mnt.st_dev, mnt.root}
+	}
+	return out
+}
+
+// devices in order of first appearance in the mount list (the map is authoritative:
+// device_list entries go stale once the slice is reallocated)
+func (m Mounts) VerifDeviceList() []VerifDevice {
+	out := []VerifDevice{}
+	seen := map[string]bool{}
+	for _, mnt := range m.mount_list {
+		if seen[mnt.st_dev] {
+			continue
+		}
+		seen[mnt.st_dev] = true
+		d := m.devices[mnt.st_dev]
+		if d == nil {
+			continue
+		}
+		out = append(out, VerifDevice{StDev: mnt.st_dev, Name: d.name,
+			Roots: append([]string{}, d.roots...)})
+	}
+	return out
+}
+
+func VerifMountPrivate(mnt *MountType) (stDev, root string) {
+	return mnt.st_dev, mnt.root
+}
